@@ -21,7 +21,7 @@ base=json.load(open('/root/.vp/BASELINE.json'))['stable_pass']
 bad=[t for t in base if res.get(t)!='pass']
 print('test-suite with patch: stable pass',len(base)-len(bad),'/',len(base),'bad:',bad)
 "
-git clean -fdq -e out >/dev/null; rm -rf /tmp/TestExtraFiles* 2>/dev/null
+git clean -fdq -e out >/dev/null; find $WT/out -maxdepth 1 -type f -delete; rm -rf /tmp/TestExtraFiles* 2>/dev/null
 ( cd $D/demo && timeout 600 bash run.sh >/tmp/demo.out 2>&1 ); r1=$?
 echo "demo with patch: rc=$r1"
 git clean -fdq -e out >/dev/null
